@@ -106,7 +106,7 @@ def gen_cases(ctx):
                 yield {"p": p, "kind": "real", "n": max(1, n), "seed": int(rng.integers(0, 2**31)),
                        "hll_seed": int(rng.integers(0, 2**63))}
         rep += 1
-        if ctx.quick and rep >= 2:
+        if ctx.quick and rep >= 4:
             return
 
 
